@@ -88,6 +88,7 @@ type Ctx struct {
 	// stream rotation (see streamTurn)
 	pass, ord, rotStart, nStreams int
 	inCase, firstSeen             bool
+	only                          []string // when set, only streams whose name starts with one of these run
 }
 
 // maxClasses caps the class signatures one worker keeps in memory.
@@ -313,6 +314,14 @@ func (c *Ctx) streamTurn(name string) bool {
 	default:
 		turn = !cold && ord < c.rotStart
 	}
+	if turn && len(c.only) > 0 {
+		turn = false
+		for _, p := range c.only {
+			if strings.HasPrefix(name, p) {
+				turn = true
+			}
+		}
+	}
 	if turn && !c.firstSeen && !c.replay {
 		c.firstSeen = true
 		c.res.Counters["process.first_stream/"+name]++
@@ -485,6 +494,7 @@ func Main(prop string, run func(c *Ctx)) {
 		resumeS  = flag.String("resume-stream", "", "")
 		resumeI  = flag.Int("resume-index", -1, "")
 		maxprocs = flag.Int("maxprocs", 2, "")
+		only     = flag.String("only", "", "comma-separated stream-name prefixes: run only these streams (race-detector pass)")
 	)
 	flag.Parse()
 	runtime.GOMAXPROCS(*maxprocs)
@@ -492,6 +502,9 @@ func Main(prop string, run func(c *Ctx)) {
 		classes: map[string]struct{}{}, viol: map[string]*Viol{}, maxSamp: 4}
 	c.res = Result{Prop: prop, Tier: *tier, Seed: *seed, Shard: *shard, NShards: *nshards,
 		Counters: map[string]int64{}, Floors: map[string]int64{}, Exhaustive: map[string]int64{}, Streams: map[string]int64{}}
+	if *only != "" {
+		c.only = strings.Split(*only, ",")
+	}
 	if *rindex >= 0 {
 		c.replay, c.replayStream, c.replayIndex = true, *rstream, *rindex
 		// a replay must visit the recorded index whatever the shard layout was
